@@ -135,6 +135,7 @@ fn c14_d%(idx)d() {
         let (l, c) = m.line_col_for_pos(TextSize::from(o));
         assert!(l == el && c == ec, "K2: the (line, UTF-16 column) the server reports is the one an LSP client computes");
         assert!(u32::from(m.pos_for_line_col(l, c)) == o, "K2: offset -> (line, col) -> offset is the identity");
+        assert!(l <= m.last_line() && c <= m.end_col_for_line(l), "LineMap::ok, the contract the Verus units assume: the reported line exists and the column lies within it");
         let o2: u32 = kani::any();
         if o < o2 && o2 <= %(n)d && POS[o2 as usize].0 {
             let (l2, c2) = m.line_col_for_pos(TextSize::from(o2));
